@@ -105,6 +105,13 @@ def run(rep):
     ge = ('elem', gs[2], M)
     G, GROUP = ('tf', ge, 0), ('tf', ge, 1)
     BINDINGS = ('f', GROUP, 'bindings')
+    # field roles of the collected-binding record by provenance (which field was filled from `.binding`, which from module.types[..]), not by name
+    from roles import binding_roles
+    ROLES, _rec = binding_roles(ogp)
+    if ROLES is None:
+        rep.bad('C04.anchor', 'binding-record', where, 'cannot find where the collected-binding record is built from a variable\'s name / @binding index / type / address space', undecided=True)
+        return
+    IDX_F, TYPE_F, NAME_F = ROLES['index'], ROLES['type'], ROLES['name']
     body = gs[3]
     pg = ident_fmt(E.holes(gt).get(list(E.holes(gt))[0]))
     rep.check(pg == ('BindGroup', G), 'C04.R4.names', 'group-struct-name', where, f'group wrapper struct is named {pg}', ok_detail='BindGroup<N>')
@@ -134,10 +141,10 @@ def run(rep):
         be = ('elem', rs[2], rs[1])
         ft = E.find_templates(rs[3], lambda t: E.tmpl_text(t).startswith('pub #'))[0]
         hh = list(E.holes(ft).values())
-        rep.check(hh[0] == ('call', 'Ident::new', [('unwrap', ('f', be, 'name'))]), 'C04.R1.field-name', 'field-name', where,
+        rep.check(hh[0] == ('call', 'Ident::new', [('unwrap', ('f', be, NAME_F))]), 'C04.R1.field-name', 'field-name', where,
                   f'field name is {E.show(hh[0], maxdepth=5)}; expected the variable\'s own name', ok_detail='Ident::new(binding.name)')
         scr = collect_scrutinees(hh[1]).get('TypeInner', [])
-        if len(scr) == 1 and scr[0][0] == 'f' and scr[0][2] == 'inner' and scr[0][1] == ('f', be, 'binding_type'):
+        if len(scr) == 1 and scr[0][0] == 'f' and scr[0][2] == 'inner' and scr[0][1] == ('f', be, TYPE_F):
             kinds1 = table_kinds(hh[1], scr[0], lambda s: 'buffer' if 'BufferBinding' in s else 'texture' if 'TextureView' in s else 'sampler' if 'Sampler' in s else s)
             for v, k in kinds1.items():
                 if k is None:
@@ -161,14 +168,14 @@ def run(rep):
         et = E.find_templates(es[3], lambda t: 'wgpu :: BindGroupEntry {' in E.tmpl_text(t))[0]
         b = hole_after(et, 'binding :')
         r = hole_after(et, 'resource :')
-        want_b = ('call', 'Literal::usize_unsuffixed', [('cast', ('f', be, 'binding_index'), 'usize')])
-        okb = b is not None and b[0] == 'hole' and (b[2] == want_b or (b[2][0] == 'call' and b[2][1].startswith('Literal::') and strip_cast(b[2][2][0]) == ('f', be, 'binding_index')))
+        want_b = ('call', 'Literal::usize_unsuffixed', [('cast', ('f', be, IDX_F), 'usize')])
+        okb = b is not None and b[0] == 'hole' and (b[2] == want_b or (b[2][0] == 'call' and b[2][1].startswith('Literal::') and strip_cast(b[2][2][0]) == ('f', be, IDX_F)))
         rep.check(okb, 'C04.R2.entry-binding', 'entry-binding', where,
                   f'`binding:` of the bind group entry is {E.show(b[2], maxdepth=6) if b else None}; expected this binding\'s binding_index (sparse / unordered @binding indices would be misnumbered)',
                   ok_detail='binding = binding.binding_index')
         if r is not None and r[0] == 'hole':
             scr = collect_scrutinees(r[2]).get('TypeInner', [])
-            if len(scr) == 1 and scr[0] == ('f', ('f', be, 'binding_type'), 'inner'):
+            if len(scr) == 1 and scr[0] == ('f', ('f', be, TYPE_F), 'inner'):
                 kinds2 = table_kinds(r[2], scr[0], lambda s: 'buffer' if ':: Buffer (' in s else 'texture' if ':: TextureView (' in s else 'sampler' if ':: Sampler (' in s else s)
                 for v, k in kinds2.items():
                     if k is None:
@@ -180,7 +187,7 @@ def run(rep):
                 for t in rts:
                     hv = list(E.holes(t).values())
                     txt = E.tmpl_text(t)
-                    ok = len(hv) == 1 and hv[0] == ('call', 'Ident::new', [('unwrap', ('f', be, 'name'))]) and '( bindings . #' in txt
+                    ok = len(hv) == 1 and hv[0] == ('call', 'Ident::new', [('unwrap', ('f', be, NAME_F))]) and '( bindings . #' in txt
                     rep.check(ok, 'C04.R2.entry-resource', f'entry-resource:{txt.split("::")[2].split("(")[0].strip()}', where,
                               f'`{txt}` with {[E.show(x, maxdepth=5) for x in hv]}: the resource is not the field named after the same binding', ok_detail=txt)
                 rep.check(len(rts) == 3, 'C04.R2.entry-resource', 'entry-resource-rows', where, f'{len(rts)} BindingResource rows', ok_detail='3 rows')
@@ -192,7 +199,7 @@ def run(rep):
         be = ('elem', ls[2], ls[1])
         lt = E.find_templates(ls[3], lambda t: 'wgpu :: BindGroupLayoutEntry {' in E.tmpl_text(t))[0]
         b = hole_after(lt, 'binding :')
-        okb = b is not None and b[0] == 'hole' and b[2][0] == 'call' and b[2][1].startswith('Literal::') and strip_cast(b[2][2][0]) == ('f', be, 'binding_index')
+        okb = b is not None and b[0] == 'hole' and b[2][0] == 'call' and b[2][1].startswith('Literal::') and strip_cast(b[2][2][0]) == ('f', be, IDX_F)
         rep.check(okb, 'C04.R3.layout-binding', 'layout-binding', where, f'`binding:` of the layout entry is {E.show(b[2], maxdepth=6) if b else None}', ok_detail='binding = binding.binding_index')
     # ---- R4 names on the group key -------------------------------------------------------------------------------------------------
     impl_ts = E.find_templates(body, lambda t: 'pub fn get_bind_group_layout' in E.tmpl_text(t))
